@@ -21,6 +21,7 @@ import (
 	"google.golang.org/protobuf/proto"
 
 	"verifharness/engine"
+	"verifharness/recstore"
 	"verifharness/world"
 )
 
@@ -351,8 +352,81 @@ func ageRoots(s *world.Server, d time.Duration) (*types.RootCertificates, error)
 		cur.Next.NotBefore.AsTime().Add(-d), cur.Next.NotAfter.AsTime().Add(-d))
 }
 
+// runRootsReinitFault: reinitialization is requested while exactly one storage
+// operation of the call fails. The call may fail; if it reports success it must
+// have replaced both roots and storage must hold what it returned ("always
+// replaces both when reinitialization is requested" is stated for every
+// successful call).
+func runRootsReinitFault(c *engine.Ctx, rc rootsCase) {
+	r := c.R
+	for _, kind := range recstore.FaultKinds {
+		for pos := 1; pos <= 12; pos++ {
+			var rec *recstore.Rec
+			s, err := world.NewServer(world.ServerCfg{Backend: rc.Backend, StorageWrap: rc.Wrap, NoRoots: true, Wrap: func(in nodeenrollment.Storage) nodeenrollment.Storage {
+				rec = recstore.New(in)
+				return rec.Wrap()
+			}})
+			if err != nil {
+				r.Broken(err.Error())
+				return
+			}
+			ck, nk := world.NewKeys(), world.NewKeys()
+			now := time.Now()
+			var pre *types.RootCertificates
+			if rc.Missing == "promotable" {
+				pre, err = storeCrafted(s, ck, nk, now.Add(-10*time.Hour), now.Add(2*time.Hour), now.Add(-time.Hour), now.Add(12*time.Hour))
+			} else {
+				pre, err = storeCrafted(s, ck, nk, now.Add(-time.Hour), now.Add(10*time.Hour), now.Add(5*time.Hour), now.Add(15*time.Hour))
+			}
+			if err != nil {
+				r.Broken("crafted store: " + err.Error())
+				s.Close()
+				return
+			}
+			rec.Arm(pos, kind)
+			var ret *types.RootCertificates
+			var cerr error
+			p, st := engine.Guard(func() { ret, cerr = rotation.RotateRootCertificates(s.Ctx, s.Store, rc.opts(s)...) })
+			fired := rec.Fired()
+			rec.Arm(0, "")
+			wit := map[string]any{"case": rc, "fault_kind": kind, "fault_position": pos}
+			switch {
+			case p != nil:
+				r.Violation("panic:"+engine.LibraryFrame(st), fmt.Sprintf("RotateRootCertificates panicked: %v", p), wit)
+			case !fired:
+				// past the last storage operation of the call
+			case cerr != nil:
+				r.Count("reinit_under_fault:refused", 1)
+			default:
+				r.Count("reinit_under_fault:success", 1)
+				stored, lerr := s.Roots()
+				kept := func(x *types.RootCertificate) bool {
+					return x == nil || bytes.Equal(x.PublicKeyPkix, ck.Pkix) || bytes.Equal(x.PublicKeyPkix, nk.Pkix)
+				}
+				switch {
+				case ret == nil || kept(ret.Current) || kept(ret.Next):
+					r.Violation("reinitialize-kept-a-root:under-fault", fmt.Sprintf("reinitialization reported success after a failed storage operation (%s at position %d) but an old root is still in place", kind, pos), wit)
+				case lerr != nil || !proto.Equal(stored.Current, ret.Current) || !proto.Equal(stored.Next, ret.Next):
+					r.Violation("returned-not-stored", fmt.Sprintf("reinitialization reported success after a failed storage operation (%s at position %d) but storage does not hold the returned roots", kind, pos), wit)
+				}
+			}
+			_ = pre
+			s.Close()
+			if !fired {
+				break
+			}
+			r.Eval(fmt.Sprintf("%s|%s|%d", engine.J(rc), kind, pos), true)
+			r.Count("reinit_under_fault:positions", 1)
+		}
+	}
+}
+
 func runRootsCase(c *engine.Ctx, rc rootsCase) {
 	r := c.R
+	if rc.Kind == "reinit-fault" {
+		runRootsReinitFault(c, rc)
+		return
+	}
 	s, err := world.NewServer(world.ServerCfg{Backend: rc.Backend, StorageWrap: rc.Wrap, NoRoots: true})
 	if err != nil {
 		r.Broken(err.Error())
@@ -545,6 +619,13 @@ func runRoots(c *engine.Ctx) engine.Result {
 			cases = append(cases, rootsCase{Kind: "halfmissing", Missing: miss, LifetimeS: cf.L, NbSkewS: cf.nb, NaSkewS: cf.na, Reinit: cf.reinit, Wrap: cf.wrap, Backend: cf.backend})
 		}
 	}
+	for _, be := range []string{world.Inmem, world.File} {
+		for _, wrap := range []bool{false, true} {
+			for _, state := range []string{"steady", "promotable"} {
+				cases = append(cases, rootsCase{Kind: "reinit-fault", Missing: state, LifetimeS: 36000, NbSkewS: -300, NaSkewS: 300, Reinit: true, Wrap: wrap, Backend: be})
+			}
+		}
+	}
 	rng := c.Rng("roots")
 	walks := c.Pick(60, 1500)
 	for i := 0; i < walks; i++ {
@@ -566,5 +647,6 @@ func runRoots(c *engine.Ctx) engine.Result {
 	r.Require("second_call_was_noop", 10)
 	r.Require("walk_steps", 100)
 	r.Require("halfmissing_refused", 1)
+	r.Require("reinit_under_fault:positions", 24)
 	return res
 }
